@@ -32,6 +32,7 @@ fn main() {
     let mut verbose = false;
     let mut budget_s: Option<u64> = None;
     let mut leg = String::new();
+    let mut no_floors = false;
     let mut i = 2;
     while i < args.len() {
         let a = args[i].as_str();
@@ -69,6 +70,7 @@ fn main() {
             "--out" => out_path = val(),
             "--leg" => leg = val(),
             "--no-evidence" => write_evidence = false,
+            "--no-floors" => no_floors = true,
             "--verbose" => verbose = true,
             "--budget" => budget_s = Some(val().parse().unwrap()),
             _ => {
@@ -100,6 +102,11 @@ fn main() {
     let wall = cfg.started.elapsed().as_secs_f64();
     if only.is_some() {
         ctx.inconclusive.clear(); // floors are meaningless for a single replayed case
+    }
+    if no_floors {
+        // reduced sanitizer legs (Miri / memcheck) re-run a small slice of the workload: coverage
+        // floors belong to the main run
+        ctx.inconclusive.retain(|r| !r.starts_with("coverage floor"));
     }
     if ctx.budget_cut {
         ctx.inconclusive.retain(|_| true);
@@ -194,7 +201,7 @@ fn main() {
         }
         std::process::exit(3);
     }
-    if only.is_none() && (ctx.evals == 0 || distinct_nontrivial < 2) {
+    if only.is_none() && !no_floors && (ctx.evals == 0 || distinct_nontrivial < 2) {
         println!("INCONCLUSIVE property={} reason=observed too little (evals={}, distinct_nontrivial={})", id, ctx.evals, distinct_nontrivial);
         std::process::exit(3);
     }
